@@ -1,4 +1,6 @@
 #!/bin/sh
+# runs on changed trees must not overwrite the committed evidence of the unchanged tree
+export VERIF_EVIDENCE=/verif/build/evidence-changed-tree
 # tools/full_matrix.sh [ids...] : every seeded change x every claimed check (6 checks at a time) -> build/full_matrix.tsv
 cd /verif
 ids="$@"; [ -z "$ids" ] && ids=$(cd seeded && ls -d */ | tr -d /)
